@@ -15,6 +15,7 @@ from mcheck import MirCrate, decide, run_parallel, model_value
 from mir.sym import Adt, En, FnV, Opaque, Outcome, Ref, Sc, StrV, VecV, UNIT, mk_bool, mk_int
 from mir.parser import MirUnsupported
 import atomstr as A
+from mir.models import deref
 
 ENGINE = "M (MIR -> SMT, z3) over structured (atom) strings"
 
@@ -133,6 +134,65 @@ def run(check, mirror, tier):
     for L in Ls:
         mk("Eplus", L)
         mk("Eminus", L)
+    # --- numeric literal -> the text handed to the decimal library (feel-evaluator build_numeric) ------------------------------------
+    crate_fe = MirCrate(mirror, ["feel-evaluator", "feel"], overflow_checks=True)
+    check.bounds.append("numeric literals: integer part of 1 or 5 digits, fraction of 1, 33, 34, 35 or 40 digits (digits symbolic)")
+    check.assumptions.append("literal side: the decimal library reads the text it is given exactly (trusted C code); decided here: the text build_numeric "
+                             "hands over is `<integer digits>.<fraction digits>` with no digit dropped or altered")
+
+    def mk_literal(ki, kf):
+        def setup(ex, st):
+            a = ex.fresh_int(st, "u128", "int_digits", constrain=False)
+            b = ex.fresh_int(st, "u128", "frac_digits", constrain=False)
+            ex.assume(st, z3.And(a.e >= 0, a.e < 10 ** ki, b.e >= 0, b.e < 10 ** kf))
+            lhs, rhs = A.mk([("digits", a.e, ki)]), A.mk([("digits", b.e, kf)])
+            inputs = dict(int_digits=a.e, frac_digits=b.e, ki=ki, kf=kf)
+
+            def m_parse_number(ex, st, callee, args, dest_ty):
+                t = deref(ex, st, args[0])
+                st.log.append(("parsed", tuple(A.normalize(A.atoms_of(t)))))
+                yield st, En("Result", z3.IntVal(0), {"Ok": (Opaque("FeelNumber", z3.IntVal(0)),)})
+
+            def runner(ex, st):
+                ex.models.insert(0, (re.compile(r"^core::str::<impl str>::parse::<(dmntk_feel_number::)?FeelNumber>$|^<FeelNumber as FromStr>::from_str$"), m_parse_number))
+                yield from ex.run("build_numeric", [lhs, rhs], st)
+            return runner, None, inputs
+
+        def post(ex, o, v):
+            calls = [e[1] for e in o.st.log if e[0] == "parsed"]
+            want = A.normalize([("digits", v["int_digits"], ki), ("lit", "."), ("digits", v["frac_digits"], kf)])
+            same = len(calls) == 1 and len(calls[0]) == len(want)
+            conj = []
+            if same:
+                for g, w in zip(calls[0], want):
+                    if g[0] != w[0] or (g[0] == "digits" and g[2] != w[2]) or (g[0] == "lit" and g[1] != w[1]):
+                        same = False
+                        break
+                    if g[0] == "digits":
+                        conj.append(g[1] == w[1])
+            return [("the text given to the number parser is the integer digits, a dot and ALL the fraction digits", z3.And([z3.BoolVal(bool(same))] + conj))]
+
+        def desc(m, v):
+            return {k: model_value(m, x) for k, x in v.items()}
+
+        def replay(i, rb):
+            lit = "%s.%s" % (str(i["int_digits"]).rjust(ki, "0"), str(i["frac_digits"]).rjust(kf, "0"))
+            from fractions import Fraction
+            want = Fraction(int(str(i["int_digits"]) + str(i["frac_digits"]).rjust(kf, "0")), 10 ** kf)
+            # exact comparison through scaling by a power of ten (exact in decimal arithmetic while the digits fit)
+            _, out, _ = replay_call(rb, ["feel", "%s * 10**%d" % (lit, kf)])
+            got = out[6:].strip() if out.startswith("VALUE ") else out
+            digits = (str(i["int_digits"]) + str(i["frac_digits"]).rjust(kf, "0")).lstrip("0") or "0"
+            exact = len(digits) <= 34
+            try:
+                bad = exact and Fraction(got) != want * 10 ** kf
+            except Exception:
+                bad = True
+            return bad, "%s * 10**%d -> %s (written value %s%s)" % (lit, kf, got[:60], digits[:40], "" if exact else ", more than 34 significant digits: not compared")
+        jobs.append(lambda c: decide(c, crate_fe, "literal/build_numeric/%d_%d" % (ki, kf), setup, post, replay, rb, models=A.ATOM_MODELS, unwind=6, describe=desc,
+                                     known_predicates=KNOWN_PRED, prefer=lambda v: z3.And(v["int_digits"] == 0, v["frac_digits"] >= 1, v["frac_digits"] <= 99)))
+    for ki, kf in ((1, 1), (5, 33), (1, 34), (1, 35), (1, 40)):
+        mk_literal(ki, kf)
     run_parallel(check, jobs)
 
 
